@@ -127,6 +127,18 @@ Theorem direct_incomplete seg vf acc l t s tn tr :
   = direct_go seg (Some vf) (apply_bs seg s ++ (if tr then [13%N] else []) ++ (if tn then [10%N] else [])) t.
 Proof. intros H1 H2. cbn [direct_go]. rewrite H1, apply_bs_impl_ok, H2. reflexivity. Qed.
 
+(* a validator error ends THIS read with an error (never with a line); the text read so far is dropped *)
+Theorem direct_error seg vf acc l t s tn tr :
+  strip_terminator (acc ++ l) = (s, tn, tr) -> vf (apply_bs seg s) = VError ->
+  direct_go seg (Some vf) acc (l :: t) = DErr :: direct_go seg (Some vf) [] t.
+Proof. intros H1 H2. cbn [direct_go]. rewrite H1, apply_bs_impl_ok, H2. reflexivity. Qed.
+
+(* Invalid (with or without message): nothing is returned, the text is kept WITHOUT its terminator *)
+Theorem direct_invalid seg vf acc l t s tn tr :
+  strip_terminator (acc ++ l) = (s, tn, tr) -> vf (apply_bs seg s) = VInvalidMsg \/ vf (apply_bs seg s) = VInvalid ->
+  direct_go seg (Some vf) acc (l :: t) = direct_go seg (Some vf) (apply_bs seg s) t.
+Proof. intros H1 [H2|H2]; cbn [direct_go]; rewrite H1, apply_bs_impl_ok, H2; reflexivity. Qed.
+
 (* lines: the concatenation of the lines is the input; every line but possibly
    the last ends with LF and contains no other LF *)
 Lemma dlines_aux_concat inp : forall cur, concat (dlines_aux inp cur) = rev cur ++ inp.
